@@ -712,7 +712,7 @@ func (e *SpecEnv) resolveType(ts string) (types.Type, string) {
 		}
 	}
 	// spec-only sorts
-	if ts == "seq" || ts == "Seq" {
+	if ts == "seq" || ts == "Seq" || ts == "SpecSeq" {
 		e.u.W.declare("SpecSeq", "(declare-sort SpecSeq 0)")
 		return nil, "SpecSeq"
 	}
